@@ -260,6 +260,11 @@ func (j *judge) judgeCRStream(ci int, c *COut, cp *plan.CScript) {
 			}
 		}
 		return
+	case c.Capped:
+		// the harness stopped reading (its own cap on the number of calls):
+		// nothing can be said about the rest of the stream
+		j.out.Probes.Add("out.of.scope", 1)
+		return
 	case !c.Final.IsEOF:
 		j.add("unjustified-error", "cr-read", "C%d: reading ended with %s after %d calls and %d bytes without any source fault", ci, errStr(c.Final), c.Calls, len(c.Out))
 		return
